@@ -13,7 +13,7 @@ prop('C09',
                'Props.C09.plus_counts', 'Props.C09.star_counts', 'Props.C09.opt_counts', 'Proto.genTree_counts', 'Proto.smallFactors_pos'],
      fingerprints=['lark/utils.py:small_factors', 'lark/load_grammar.py:EBNF_to_BNF._add_repeat_rule', 'lark/load_grammar.py:EBNF_to_BNF._add_repeat_opt_rule',
                    'lark/load_grammar.py:EBNF_to_BNF._generate_repeats', 'lark/load_grammar.py:EBNF_to_BNF.expr', 'lark/load_grammar.py:EBNF_to_BNF._add_rule', 'lark/load_grammar.py:EBNF_to_BNF._add_recurse_rule', 'lark/load_grammar.py:SimplifyRule_Visitor.expansion'],
-     rule='(a) small_factors(n, f) of the real code vs the Lean smallFactors for every n below a bound and f in 3..9; (b) the helper-rule tree the real '
+     rule='EBNF level: repetition-heavy grammar ASTs (bounds around the break threshold, repeated groups with alternatives) vs their explicit expansion into helper rules. (a) small_factors(n, f) of the real code vs the Lean smallFactors for every n below a bound and f in 3..9; (b) the helper-rule tree the real '
           'EBNF_to_BNF._generate_repeats builds vs the Lean genTree (the function repeat_counts is about) for (mn, mx) pairs; (c) end to end: grammars '
           'x~mn..mx / x? / x* / x+ with x a terminal, rule, group or template argument, rule side and terminal side, Earley and LALR, parsed on k '
           'repetitions for k around the bounds: accepted iff the theorem says k is in range, and exactly k consecutive children without helper nodes. '
@@ -153,7 +153,7 @@ prop('C03',
      fingerprints=['lark/parse_tree_builder.py:maybe_create_child_filter', 'lark/parse_tree_builder.py:ChildFilter.__call__', 'lark/parse_tree_builder.py:ChildFilterLALR.__call__',
                    'lark/parse_tree_builder.py:ChildFilterLALR_NoPlaceholders.__call__', 'lark/parse_tree_builder.py:ExpandSingleChild.__call__', 'lark/parse_tree_builder.py:ParseTreeBuilder._init_builders',
                    'lark/parse_tree_builder.py:ParseTreeBuilder.create_callback', 'lark/load_grammar.py:EBNF_to_BNF.expr', 'lark/load_grammar.py:EBNF_to_BNF._add_rule', 'lark/load_grammar.py:EBNF_to_BNF.maybe', 'lark/load_grammar.py:FindRuleSize._will_not_get_removed'],
-     rule='random Lark sources using ?, !, _rules, _TERMINALS, aliases, [..], ?, *, +, ~n, ~n..m, groups, templates, priorities x keep_all_tokens x maybe_placeholders, compiled by the real front end; sentences sampled '
+     rule='EBNF level: random grammar ASTs are rendered to Lark EBNF and, independently, desugared by the harness into plain BNF with explicit inlined helper rules (kept-all under ! rules); both are compiled by lark and must agree (Earley, explicit ambiguity, acyclic only) on language and tree sets. random Lark sources using ?, !, _rules, _TERMINALS, aliases, [..], ?, *, +, ~n, ~n..m, groups, templates, priorities x keep_all_tokens x maybe_placeholders, compiled by the real front end; sentences sampled '
           'from the compiled rules; engines earley/{dynamic,basic,dynamic_complete}, lalr/{contextual,basic}, cyk. For each engine the RAW derivation it found is obtained by running the same engine with raw '
           '(rule, children) builders in place of the callback chain; the Lean buildList (proved equal to the documented shapeList) turns it into the expected tree (node and token identities carried as unique labels), '
           'compared with the tree parse() returns. For inputs with a single derivation all engines that accept must return equal trees. Non-trivial = derivation with > 1 rule node; distinct by canonical hash.',
